@@ -7,6 +7,7 @@ import (
 	"encoding/json"
 	"fmt"
 	"math"
+	"strconv"
 	"strings"
 	"testing"
 
@@ -352,6 +353,39 @@ func TestCodecIndependence(t *testing.T) {
 
 // ---------------------------------------------------------------- independent osmjson documents
 
+// checkTypeless: elements are decoded independently of their neighbours. A
+// document whose k-th element lacks its type is judged only relative to the
+// document holding that element alone: if the lone typeless element is
+// rejected, it must not become acceptable (taking some kind from elsewhere)
+// because other elements precede or follow it.
+func checkTypeless(c DocCase, text string) error {
+	k := c.Style.NoTypeAt - 1
+	solo := &osmdoc.Doc{}
+	n := 0
+	for _, it := range c.Doc.Items {
+		if it.Node == nil && it.Way == nil && it.Relation == nil {
+			continue
+		}
+		if n == k {
+			solo.Items = append(solo.Items, it)
+		}
+		n++
+	}
+	if len(solo.Items) == 0 {
+		return nil
+	}
+	st := c.Style
+	st.NoTypeAt = 1
+	soloText := osmdoc.RenderJSON(solo, st)
+	var a, b osm.OSM
+	errSolo := json.Unmarshal([]byte(soloText), &a)
+	errFull := json.Unmarshal([]byte(text), &b)
+	if errSolo != nil && errFull == nil {
+		return harness.Failf("C05/element-dependence", "element %d has no type; alone it is rejected (%v), inside the document it is accepted as one of %d elements (codec %d)\n%s", k, errSolo, len(b.Elements()), c.Codec, text)
+	}
+	return nil
+}
+
 type DocCase struct {
 	Doc   *osmdoc.Doc
 	Style osmdoc.JSONStyle
@@ -364,10 +398,19 @@ func checkDoc(c DocCase) error {
 	text := osmdoc.RenderJSON(c.Doc, c.Style)
 	want := osmdoc.JSONView(c.Doc, c.Style)
 	var o osm.OSM
+	if c.Style.NoTypeAt > 0 {
+		return checkTypeless(c, text)
+	}
 	if err := json.Unmarshal([]byte(text), &o); err != nil {
 		return harness.Failf("C05/osmjson-rejected", "independently written osmjson rejected (codec %d): %v\n%s", c.Codec, err, text)
 	}
-	if o.Version != want.Version {
+	if c.Style.VersionKind == 1 && c.Style.VersionNum != "" {
+		// a numeric version keeps its value (the library renders it as text)
+		wantF, _ := strconv.ParseFloat(c.Style.VersionNum, 64)
+		if gotF, err := strconv.ParseFloat(o.Version, 64); err != nil || gotF != wantF {
+			return harness.Failf("C05/version-field", "numeric version %s decoded as %q (value %v, err %v)\n%s", c.Style.VersionNum, o.Version, gotF, err, text)
+		}
+	} else if o.Version != want.Version {
 		return harness.Failf("C05/version-field", "version %q, document says %q (kind %d: 0 absent, 1 number, 2 string)\n%s", o.Version, want.Version, c.Style.VersionKind, text)
 	}
 	if o.Generator != want.Generator || o.Copyright != want.Copyright || o.Attribution != want.Attribution || o.License != want.License {
@@ -382,14 +425,22 @@ func checkDoc(c DocCase) error {
 func TestOSMJSONDocuments(t *testing.T) {
 	harness.Run(t, harness.Spec[DocCase]{
 		Name: "osmjson-documents", N: 4000,
-		Rule: "osmjson documents written by an independent writer from a model: version as number, as string or absent; generator/copyright/attribution/license present or absent; unknown keys at top level and inside elements; Overpass-style minimal and API-style full elements; key order shuffled, compact or spaced; decoded under the three codec configurations; oracle = decoded elements equal the model (tags up to order), absent top-level fields stay empty strings; non-trivial = document without version, or with unknown keys, or a custom codec",
+		Rule: "osmjson documents written by an independent writer from a model: version as number (0.6 or a literal of up to 17 significant digits, exponent form, integers beyond 2^24: its value must survive), as string or absent; generator/copyright/attribution/license present or absent; unknown keys at top level and inside elements; Overpass-style minimal and API-style full elements; key order shuffled, compact or spaced; decoded under the three codec configurations; oracle = decoded elements equal the model (tags up to order), absent top-level fields stay empty strings; one case in eight drops the type key of one element (or writes null): if that element alone is rejected, the whole document must be rejected too (elements are decoded independently of their neighbours); non-trivial = document without version, or with unknown keys, or a custom codec",
 		Gen: func(t *rapid.T) DocCase {
-			return DocCase{
+			c := DocCase{
 				Doc: osmdoc.GenDoc(t, osmdoc.GenOpt{UniqueTagKeys: true, NoAnnotations: true}, "nwr"),
 				Style: osmdoc.JSONStyle{Seed: int64(rapid.IntRange(1, 1<<30).Draw(t, "seed")), VersionKind: rapid.IntRange(0, 2).Draw(t, "versionKind"), UnknownKeys: rapid.Bool().Draw(t, "unknown"),
 					Minimal: rapid.Bool().Draw(t, "minimal"), Shuffle: rapid.Bool().Draw(t, "shuffle"), Pretty: rapid.Bool().Draw(t, "pretty")},
 				Codec: rapid.IntRange(0, 4).Draw(t, "codec"),
 			}
+			if c.Style.VersionKind == 1 && rapid.Bool().Draw(t, "versionNum?") {
+				c.Style.VersionNum = rapid.SampledFrom([]string{"0.61", "1", "2", "0.25", "0.7", "0.123456789", "20240131", "0.60000001", "16777217", "6e-1", "0.6000000000000001", "1234567.890625"}).Draw(t, "versionNum")
+			}
+			if n := osmdoc.CountElements(c.Doc); n > 0 && rapid.IntRange(0, 7).Draw(t, "typeless?") == 0 {
+				c.Style.NoTypeAt = rapid.IntRange(1, n).Draw(t, "noTypeAt")
+				c.Style.NoTypeNull = rapid.Bool().Draw(t, "noTypeNull")
+			}
+			return c
 		},
 		Check: checkDoc,
 		Classify: func(c DocCase) (bool, []string) {
@@ -402,6 +453,12 @@ func TestOSMJSONDocuments(t *testing.T) {
 			}
 			if c.Codec != 0 {
 				cl = append(cl, "custom-codec")
+			}
+			if c.Style.NoTypeAt > 1 {
+				cl = append(cl, "typeless-after-typed")
+			}
+			if c.Style.VersionNum != "" {
+				cl = append(cl, "numeric-version-digits")
 			}
 			return len(cl) > 0, cl
 		},
